@@ -54,7 +54,7 @@ def harnesses(seed_mix=0):
         H[name] = dict(prop=prop, variant=variant or prop, shape=sh, tier=tier, unwind=u)
     # C05: zero start temperature, every other setting symbolic
     add("c05_s4i2", "C05", shape(steps=4, inner=2, kt_start=0., finish="sym", ratio="sym", conv="sym", seed=s1), "quick")
-    add("c05_s6i2", "C05", shape(steps=6, inner=2, kt_start=0., finish="sym", ratio="sym", seed=s2), "quick")
+    add("c05_s6i2", "C05", shape(steps=6, inner=2, kt_start=0., finish="sym", ratio="sym", seed=s2), "thorough")
     add("c05_s3i1", "C05", shape(steps=3, inner=1, kt_start=0., finish="sym", ratio="sym", conv="sym", seed=s1, np=3), "quick")
     add("c05_s6i3r", "C05", shape(steps=6, inner=3, kt_start=0., finish="sym", ratio="sym", sym_range=True, seed=s2), "thorough")
     add("c05_s8i2", "C05", shape(steps=8, inner=2, kt_start=0., finish="sym", ratio="sym", seed=s1), "thorough")
@@ -66,7 +66,7 @@ def harnesses(seed_mix=0):
     add("c06_s6i2kt", "C06", shape(steps=6, inner=2, kt_start=1., finish=0.015625, seed=s2), "thorough")
     # C07: D = temperature-independent decisions only (replayable); S = exp stub forces outcomes
     add("c07d_s4i2", "C07", shape(steps=4, inner=2, kt_start=1., ratio=0.5, seed=s1), "quick", variant="C07D")
-    add("c07d_s4i2z", "C07", shape(steps=4, inner=2, kt_start=0., ratio="sym", finish="sym", seed=s2), "quick", variant="C07D")
+    add("c07d_s4i2z", "C07", shape(steps=4, inner=2, kt_start=0., ratio="sym", finish="sym", seed=s2), "thorough", variant="C07D")
     add("c07s_s4i4", "C07", shape(steps=4, inner=4, kt_start=0.5, seed=s2), "quick", variant="C07")
     add("c07s_s4i2", "C07", shape(steps=4, inner=2, kt_start=1., ratio=0.5, seed=s1), "quick", variant="C07")
     add("c07d_s6i3", "C07", shape(steps=6, inner=3, kt_start=8., ratio=0.25, seed=s2), "thorough", variant="C07D")
@@ -77,15 +77,15 @@ def harnesses(seed_mix=0):
     add("c08_s6i3r", "C08", shape(steps=6, inner=3, kt_start=0., sym_range=True, seed=s2), "thorough")
     # C18: temperature per loop observed through the arguments handed to exp / powf
     add("c18_s4i2r", "C18", shape(steps=4, inner=2, kt_start=1., ratio=0.5, seed=s1), "quick")
-    add("c18_s6i2f", "C18", shape(steps=6, inner=2, kt_start=0.5, finish=0.015625, seed=s2), "quick")
-    add("c18_s3i1n", "C18", shape(steps=3, inner=1, kt_start=8., seed=s1), "quick")
+    add("c18_s6i2f", "C18", shape(steps=6, inner=2, kt_start=0.5, finish=0.015625, seed=s2), "thorough")
+    add("c18_s3i1n", "C18", shape(steps=3, inner=1, kt_start=8., seed=s1), "thorough")
     add("c18_s4i2z", "C18", shape(steps=4, inner=2, kt_start=0., ratio="sym", finish="sym", seed=s2), "quick")
     add("c18_s8i2f", "C18", shape(steps=8, inner=2, kt_start=1., finish=0.5, seed=s2), "thorough")
     add("c18_s6i3r", "C18", shape(steps=6, inner=3, kt_start=0.0625, ratio=0.25, seed=s1), "thorough")
     add("c18_s4i2sym", "C18", shape(steps=4, inner=2, ratio="sym", finish="sym", seed=s1), "thorough")
     # C19
     add("c19_s4i2", "C19", shape(steps=4, inner=2, kt_start=0., seed=s1), "quick")
-    add("c19_s6i2r", "C19", shape(steps=6, inner=2, kt_start=0., sym_range=True, seed=s2), "quick")
+    add("c19_s6i2r", "C19", shape(steps=6, inner=2, kt_start=0., sym_range=True, seed=s2), "thorough")
     add("c19_s3i1", "C19", shape(steps=3, inner=1, kt_start=0.5, ratio=0.5, seed=s1, np=3), "quick")
     add("c19_s8i2", "C19", shape(steps=8, inner=2, kt_start=0., seed=s2), "thorough")
     add("c19_s9i3", "C19", shape(steps=9, inner=3, kt_start=0., sym_range=True, seed=s1), "thorough")
